@@ -7,8 +7,8 @@ import subprocess
 import threading
 
 
-CHILD_LIMIT = 600      # seconds per child; the slowest case takes well under a minute on an idle machine
-MAX_CONFIRMED = 4      # dead children (each confirmed by a second run) after which the remaining cases are skipped
+CHILD_LIMIT = 300      # seconds per child; the slowest case takes well under a minute on an idle machine
+MAX_CONFIRMED = 2      # dead children (each confirmed by a second run) after which the remaining cases are skipped
 
 
 def run(ck, thorough):
